@@ -534,6 +534,8 @@ type c17E2ECase struct {
 	Workers map[string]int `json:"workers"` // values per source are derived: env = w, file = w+1, cli = w+2
 	// Bools: for the <protocol>-enabled switches, the value each source gives (bit 0 env, 1 file, 2 cli; set = true)
 	Bools map[string]int `json:"bools,omitempty"`
+	// TopPort: the port setting whose winning source gives the highest port number (65535 - shard)
+	TopPort string `json:"top_port,omitempty"`
 }
 
 func runC17E2E(c *c17E2ECase) (v verdict, sig string, err error) {
@@ -594,7 +596,25 @@ func runC17E2E(c *c17E2ECase) (v verdict, sig string, err error) {
 			// startVflow always writes the port keys: without a file source the line must go
 			cfg.Extra[s.key] = "~drop~"
 		}
-		apply(s.key, s.flag, [3]int{s.val(blocks[0]), s.val(blocks[1]), s.val(blocks[2])}, func(x int) {
+		vals := [3]int{s.val(blocks[0]), s.val(blocks[1]), s.val(blocks[2])}
+		if s.key == c.TopPort && c.Masks[s.key] != 0 {
+			// the source that wins gives the top of the port range (65535 for shard 0, one less per further shard,
+			// so that parallel shards never ask for the same port)
+			shard, _ := strconv.Atoi(os.Getenv("VERIF_SHARD_INDEX"))
+			win := 0
+			for bit := 0; bit < 3; bit++ {
+				if c.Masks[s.key]&(1<<uint(bit)) != 0 {
+					win = bit
+				}
+			}
+			top := 65535 - shard%16
+			if pc, err := net.ListenPacket("udp", fmt.Sprintf(":%d", top)); err == nil {
+				pc.Close()
+				vals[win] = top
+				v.label(true, "port-at-top-of-range")
+			}
+		}
+		apply(s.key, s.flag, vals, func(x int) {
 			switch s.key {
 			case "ipfix-port":
 				eff.IPFIX = x
@@ -709,6 +729,9 @@ func runC17E2E(c *c17E2ECase) (v verdict, sig string, err error) {
 	}
 	proc, e := startVflowRaw(dir, def, cfg)
 	if e != nil {
+		if proc != nil && strings.Contains(proc.stderrText(), "address already in use") {
+			return v, "", fmt.Errorf("harness: a generated port is taken by another process: %s", tail(proc.stderrText(), 200))
+		}
 		if proc != nil && proc.exited() {
 			return v, "start", fmt.Errorf("collector did not start with the generated configuration (%v): %s", c.Masks, proc.stderrTail())
 		}
@@ -832,6 +855,7 @@ func TestC17E2E(t *testing.T) {
 		for _, k := range []string{"ipfix-tpl-cache-file", "netflow9-tpl-cache-file"} {
 			c.Masks[k] = rapid.SampledFrom([]int{2, 1, 4, 3, 6, 5, 7}).Draw(t, "cachemask")
 		}
+		c.TopPort = rapid.SampledFrom([]string{"", "", "ipfix-port", "netflow9-port", "netflow5-port", "sflow-port"}).Draw(t, "topport")
 		for _, k := range []string{"ipfix-addr", "netflow9-addr", "netflow5-addr", "sflow-addr"} {
 			c.Masks[k] = rapid.SampledFrom([]int{0, 0, 0, 1, 2, 4, 3, 5, 6, 7}).Draw(t, "addrmask")
 		}
